@@ -334,6 +334,103 @@ def run_hp(case):
         return {"crash": traceback.format_exc()[-1500:]}
 
 
+# ---- cross-zone sequences: one process serving two zones whose frames cover the same instants
+
+XZ_PAIRS = [("America/Denver", "America/Phoenix"), ("America/New_York", "America/Havana"), ("Europe/Helsinki", "Asia/Beirut"),
+            ("Europe/London", "UTC"), ("Europe/Berlin", "Africa/Lagos"), ("Europe/Berlin", "UTC"),
+            ("Australia/Sydney", "Australia/Brisbane"), ("America/Chicago", "America/Regina"), ("US/Pacific", "America/Denver")]
+
+
+def gen_xz_cases(rng, reps):
+    """spans that start before and end after a DST excursion of the first zone, chosen so that local 00:00 of the first
+    day and local 23:00 of the last day are the SAME instants in both zones whenever the zones share their base offset
+    (then the two frames have the same first instant, last instant and length, and differ only in their local clock)"""
+    cases = []
+    for a, b in [p for p in XZ_PAIRS for _ in range(reps)]:
+        tr = cz.transitions(a)
+        exc = [(t1, t2) for (t1, o1, n1), (t2, o2, n2) in zip(tr, tr[1:]) if n2 == o1 and n1 > o1 and (t2 - t1).days < 300]
+        if not exc:
+            continue
+        t1, t2 = rng.choice(exc)
+        d1 = t1.astimezone(cz.zone(a)).date().toordinal() - rng.choice([1, 2, 3])
+        d2 = t2.astimezone(cz.zone(a)).date().toordinal() + rng.choice([1, 2, 3])
+        s = cz.local_midnight_utc(d1, a, 0)
+        e = cz.local_midnight_utc(d2, a, 23)
+        if s is None or e is None:
+            continue
+        s, e = cz.to_minutes(s), cz.to_minutes(e)
+        with_obs = rng.random() < 0.7
+        for order in ((a, b), (b, a)):
+            cases.append({"zones": list(order), "start": s, "n": (e - s) // 60 + 1, "with_obs": with_obs})
+    return cases
+
+
+def run_xz(case):
+    """worker (a FRESH process per sequence): predict on the same instants in the zones of the sequence, one after the
+    other; the first call of a sequence is the reference for that zone (nothing has run before it in the process)"""
+    try:
+        from opendsm.eemeter import HourlyReportingData
+        out = []
+        for z in case["zones"]:
+            c = {"zone": z, "start": case["start"], "n": case["n"], "with_obs": case["with_obs"]}
+            inp = hourly_input(c)
+            rec = {"zone": z, "input_first": idx_minutes(inp.index)[0], "input_last": idx_minutes(inp.index)[-1]}
+            try:
+                with contextlib.redirect_stdout(io.StringIO()):
+                    data = HourlyReportingData(inp, is_electricity_data=True)
+                df = data.df
+                rec["idx_first"], rec["idx_last"], rec["rows_in"] = idx_minutes(df.index[:1])[0], idx_minutes(df.index[-1:])[0], len(df)
+                with contextlib.redirect_stdout(io.StringIO()):
+                    o = hourly_model_for(z).predict(data)
+                pv = o["predicted"].to_numpy(dtype=float)
+                rec["predict"] = {"rows": len(o), "index_equal": bool(o.index.equals(df.index)),
+                                  "increasing": bool(o.index.is_monotonic_increasing and o.index.is_unique),
+                                  "tz_kept": str(o.index.tz) == str(df.index.tz),
+                                  "non_finite": int((~np.isfinite(pv)).sum()),
+                                  "values_sha": vlib.sha([float(x).hex() for x in pv])}
+            except Exception as e:   # noqa
+                rec["predict"] = exc_obs(e)
+            out.append(rec)
+        return out
+    except Exception:   # noqa
+        return [{"crash": traceback.format_exc()[-1500:]}]
+
+
+def process_xz(run, cases, results):
+    """oracle of the property on every call + the result of a call must not depend on what the process did before"""
+    fresh = {}
+    for case, recs in zip(cases, results):
+        if recs and "crash" in recs[0]:
+            raise RuntimeError("worker crashed: " + recs[0]["crash"])
+        fresh[(recs[0]["zone"], case["start"], case["n"], case["with_obs"])] = recs[0]["predict"]
+    for case, recs in zip(cases, results):
+        for pos, rec in enumerate(recs):
+            z = rec["zone"]
+            c1 = {"zone": z, "start": case["start"], "n": case["n"], "with_obs": case["with_obs"], "sequence": case["zones"],
+                  "position_in_sequence": pos}
+            grid = ideal_grid(rec["input_first"], rec["input_last"], z)
+            flags = flags_of(group_days(grid, z), z)
+            run.count(("xz", vlib.sha(c1)), nontrivial=flags["clock_change_in_span"] or pos > 0)
+            p = rec["predict"]
+            run.dist("cross_zone_sequence", "%s after %s: %s" % (z, case["zones"][0] if pos else "nothing",
+                                                                 p.get("raised", "ok")))
+            res = {"idx": grid if "rows_in" not in rec else [None] * rec["rows_in"], "predict": p}
+            for sig, msg in oracle_hp(c1, res, flags):
+                sig["position_in_sequence"] = "first" if pos == 0 else "after another zone"
+                run.violation(sig, "C06 HourlyModel.predict [%s, %s in the process, observed %s]: %s" % (
+                    z, "first call" if pos == 0 else "after a frame of " + case["zones"][0], sig["observed"], msg),
+                    case={"stream": "xz", "case": case}, observation=recs,
+                    expected="predict(data).index equals data.df.index, strictly increasing, finite on every row",
+                    generator="c06.gen_xz_cases")
+            ref = fresh.get((z, case["start"], case["n"], case["with_obs"]))
+            if pos > 0 and ref is not None and "raised" not in p and "raised" not in ref and p != ref:
+                sig = hourly_signature(c1, flags, {"broken": "prediction depends on frames of another zone seen earlier in the process"})
+                run.violation(sig, "C06 HourlyModel.predict [%s after a frame of %s]: the predictions differ from those of the same call "
+                                   "in a fresh process (values shifted against the timestamps)" % (z, case["zones"][0]),
+                              case={"stream": "xz", "case": case}, observation={"this": p, "fresh_process": ref},
+                              expected="the same rows and values as the same call made first in a process", generator="c06.gen_xz_cases")
+
+
 def window_bounds(z, T, before, after):
     d0 = T.astimezone(cz.zone(z)).date().toordinal()
     s = cz.local_midnight_utc(d0 - before, z, 0)
@@ -1058,7 +1155,9 @@ def main():
         "over all transition hours 0..23 for correct_dst / _transform_dst / the commented loop; (b) full predict of the "
         "hourly model (one real fit, re-labelled per zone) and of synthetic daily / billing models on reporting sets with "
         "random spans, start/end hours, gaps, NaN stretches, +-inf temperature / usage cells on first, last and interior rows "
-        "(daily/billing), with and without observed. distinct = case hash; non-trivial "
+        "(daily/billing), with and without observed; cross-zone sequences: in ONE fresh process the same instants are predicted in two "
+        "zones that share their base offset (Denver/Phoenix, New_York/Havana, Helsinki/Beirut, London/UTC, Sydney/Brisbane, ...), "
+        "both orders, each result compared with the same call made first in a process. distinct = case hash; non-trivial "
         "= the span contains a clock change (hourly) / both kept and dropped rows (daily)")
     run.assumptions += [
         "UTC offsets, transition instants and the resolvability of date labels are data read from the system tz database "
@@ -1091,6 +1190,11 @@ def main():
             c = rep["case"]["first"][0]["case"] if "first" in rep["case"] else c
         if c.get("stream") == "dp":
             process_dp(run, st, [c["case"]], [run_dp(c["case"])])
+        elif c.get("stream") == "xz":
+            MODEL_JSON = fit_hourly()
+            seqs = [c["case"], dict(c["case"], zones=list(reversed(c["case"]["zones"])))]
+            with get_context("fork").Pool(2, maxtasksperchild=1) as xp:
+                process_xz(run, seqs, xp.map(run_xz, seqs, chunksize=1))
         else:
             MODEL_JSON = fit_hourly()
             cc = c["case"] if "case" in c else c
@@ -1109,6 +1213,10 @@ def main():
         r_win = pool.map_async(run_windows, jobs, chunksize=1)
         r_hp = pool.map_async(run_hp, hp_cases, chunksize=4)
         r_dp = pool.map_async(run_dp, dp_cases, chunksize=4)
+        # one fresh process per cross-zone sequence (process-global state must not leak between zones)
+        xz_cases = gen_xz_cases(rng, run.n(1, 5))
+        xpool = get_context("fork").Pool(min(8, max(1, len(xz_cases))), maxtasksperchild=1)
+        r_xz = xpool.map_async(run_xz, xz_cases, chunksize=1)
         process_patterns(run, st, rng, gen_patterns(rng, run.n(300, 2000)))
         run.log("pattern streams done")
         win = [rec for lst in r_win.get() for rec in lst]
@@ -1117,6 +1225,10 @@ def main():
         run.log("hourly predict stream done (%d cases)" % len(hp))
         dp = r_dp.get()
         run.log("daily/billing stream done (%d cases)" % len(dp))
+        xz = r_xz.get()
+        xpool.close()
+        run.log("cross-zone sequences done (%d sequences)" % len(xz))
+    process_xz(run, xz_cases, xz)
     process_windows(run, st, win)
     process_hp(run, st, hp_cases, hp)
     process_dp(run, st, dp_cases, dp)
